@@ -10,6 +10,14 @@ CHECKS = {
   text='Coq theorem C09_window: every step of every seek/read/write/tell history with arbitrary integer arguments on the SubsectionIO model obeys the sub-file contract (bytes only from the window, counts, positions, write confinement); pure parts of SubsectionIO regenerated from source and proved equal to the model; extracted model run against the implementation; the other view classes are checked against the same contract by a direct oracle (sampled).',
   note='Proof covers SubsectionIO over an in-memory base file (PyFile model of io.BytesIO, conformance by correspondence). Merged files, CloseWrapper, nested windows: oracle on sampled histories only (partial).',
   technique='Rocq/Coq proof (induction over operation histories) + regenerated kernels + correspondence'),
+ 'C01': dict(
+  text='Coq theorems for all keys/counters/contents and all seek/read(/write) histories: each read of the CTR wrapper model returns the slice of the whole-stream decryption at the position reported before it and advances by the bytes returned -- 3DS mode by an invariant on the cached cipher (over a plain file and over a window), DSi mode by the block-reversal lemma (any lawful file); AES is an uninterpreted function; arithmetic leaves and the keyslot<4 mode tests are regenerated from engine.py; the extracted model is run against create_ctr_io with AES answered by PyCryptodome.',
+  note='Trusted: Coq kernel, translator, extraction + driver, hand models PyFile/Window/Cipher/CtrIO (tie 2), PyCryptodome as the AES oracle. Precondition counter + blocks < 2^128 as in the property.',
+  technique='Rocq/Coq refinement proof (cached-cipher invariant, induction over histories) + regenerated kernels + correspondence'),
+ 'C12': dict(
+  text='Coq theorems: from any reachable wrapper state a write never errs, leaves bytes outside [pos,pos+k) untouched and updates the decrypted view like an ordinary file (3DS mode over plain file and window incl. truncation, DSi mode over plain file); all read/write/seek interleavings obey the step contract (no TypeError-style failures); the gap case (write beginning beyond EOF) is refuted on the model and recorded as a known finding; extracted model and an independent whole-stream oracle run against the implementation.',
+  note='Trusted as C01. Partial: positive theorem excludes writes that begin beyond the end of a growable file (C12_gap_extension_refuted, KNOWN_FINDINGS).',
+  technique='Rocq/Coq invariant proof over operation histories + refutation witness + correspondence'),
 }
 
 NOT_YET = 'check not built yet in this session (work in progress; see DESIGN.md section 10 order of work)'
